@@ -36,7 +36,7 @@ pub fn all() -> Vec<PropDef> {
             id: "C11",
             subs: { let mut v = conn2::c11_conn_subs(); v.push(server::c11_server_sub()); v },
             plan: c11_plan,
-            rule: "connection part: case = stream A.B where A ends in a parse error of any class raised in any parser position (grammar corruptions or an explicit faulty element; cut at the decidable point or with surplus bytes) and B is a continuation of valid requests, blank lines, header-like lines, garbage or a further error, under a random read schedule; oracle = differential: every read after an error-reporting read is replayed, with the same chunk sizes, into a fresh connection with the same limit; results, delivered requests and drained interim output must be identical, recursively at the next error; non-trivial = at least one post-error read was compared",
+            rule: "connection part: case = stream A.B where A ends in a parse error of any class raised in any parser position (grammar corruptions or an explicit faulty element; cut at the decidable point or with surplus bytes) and B is a continuation of valid requests, blank lines, header-like lines, garbage or a further error, under a random read schedule; oracle = differential: every read after an error-reporting read is replayed, with the same chunk sizes, into a fresh connection with the same limit; results, delivered requests and drained interim output must be identical, recursively at the next error; non-trivial = at least one post-error read was compared; the owner may change the payload limit at drawn reads (the fresh connection gets the configuration in force); sub 'defer': the same stream and read plan with requests popped after every read vs. left queued (up to 2600 queued), results, requests available after each error, deliveries and output identical; server part also: one burst of a malformed request padded to exactly 1 or 2 server reads followed by well-formed requests",
             assumptions: vec!["bytes that arrive in the same read as the fault, after it, are not part of 'bytes read from then on'"],
             single_threaded_world: false,
         },
@@ -62,7 +62,7 @@ pub fn all() -> Vec<PropDef> {
             id: "C13",
             subs: { let mut v = conn::c13_conn_subs(); v.push(server::c13_server_sub()); v },
             plan: c13_plan,
-            rule: "connection part: case = stream of requests with/without Expect (name case/padding, unsupported values), Content-Length in {absent,0,1..,L,L+1}, optional truncation at the header terminator, read schedule; after every read all pending output is drained and parsed by the independent response reader; oracle = exactly one bodiless 100 with the request's version per REF request with expect && 0<n<=L whose header block is complete, in order, nothing else; non-trivial = the stream has an Expect line",
+            rule: "connection part: case = stream of requests with/without Expect (name case/padding, unsupported values), Content-Length in {absent,0,1..,L,L+1}, optional truncation at the header terminator, read schedule; after every read all pending output is drained and parsed by the independent response reader; oracle = exactly one bodiless 100 with the request's version per REF request with expect && 0<n<=L whose header block is complete, in order, nothing else; non-trivial = the stream has an Expect line; limits up to 2^32+3 and usize::MAX; sub 'discard': an application response partly written then discarded (EPIPE/EAGAIN/zero/clear_write_buffer) or completed, then an Expect request: exactly one intact 100 Continue of its version, body, yield",
             assumptions: vec![],
             single_threaded_world: false,
         },
